@@ -10,7 +10,7 @@ def key_section(ctx, rep):
     w = ctx.method("KeyKeeper", "loop_poll")
     body = w + "::{closure#0}"
     inl = [(r"(KeyKeeper|Self)::%s$" % fn, ctx.method("KeyKeeper", fn)) for fn in KEYFNS]
-    eng = ctx.engine(inline=inl, loop_bound=1, max_paths=20000, timeout=900)
+    eng = ctx.engine(inline=inl, loop_bound=1, max_paths=20000, timeout=420)
     st = eng.find_blocks(body, r"KeyStatus::get_secure_channel_state$")
     if len(st) != 1:
         raise Inconclusive("loop_poll: expected one call of KeyStatus::get_secure_channel_state, found %d" % len(st))
